@@ -5,9 +5,9 @@
  * cut       : vorbis_book_decode (classification word) -> arbitrary entry or end of packet, recorded; the three vector decoders
  *             (vorbis_book_decodevs_add / decodev_add / decodevv_add: harness K-bookvec) -> record (book, channel vector, offset, length),
  *             CHECK the written range lies inside the vector, return 0 or end of packet; _vorbis_block_alloc -> malloc
- * config    : -DTYPE residue type 0/1/2; 2 classifications, 2 classification words per codeword (classbook dim 2), partition size 2, 2 channels,
- *             block half size 8
- * symbolic  : begin/end (0..24: also beyond the vector), the two cascade bytes (< 8: up to 3 passes), which book serves which stage,
+ * config    : -DTYPE residue type 0/1/2; 2 classifications, 2 classification words per codeword (classbook dim 2), partition size 2; types 0/1: one
+ *             channel of 6 samples, type 2: two channels of 4 samples (interleaved vector of 8); cascades < 4 (2 passes)
+ * symbolic  : begin/end (0..10: also beyond the vector), (cascade bytes: configuration -DCAS0 -DCAS1) which book serves which stage,
  *             which channels are marked "do not decode", every classification word, where the packet ends
  * assert    : every partition decode addresses [offset, offset+size) inside [begin, min(end, vector length)); the sequence of codebook
  *             reads is exactly the spec's: per pass, per classification-word group: (pass 0 only) one classification word per decoded
@@ -24,13 +24,22 @@
 #ifndef TYPE
 #define TYPE 1
 #endif
+#if TYPE==2
 #define CHN 2
-#define HALF 8
-#define NBK 5
-#define RMAX 64
+#define HALF 4
+#else
+#define CHN 1
+#define HALF 6
+#endif
+#define NBK 4
+#ifndef CAS0
+#define CAS0 1
+#define CAS1 3
+#endif
+#define RMAX 16
 static codebook fb[NBK];
 static int r_kind[RMAX], r_book[RMAX], r_ch[RMAX], r_off[RMAX], r_n[RMAX], r_ret[RMAX], g_r=0;
-static float v0[HALF], v1[HALF]; static float *g_in[CHN];
+static float v0[HALF], v1[HALF]; static float *g_in[2];
 static void rec(int kind,int book,int ch,int off,int n,int ret){ CHECK(g_r<RMAX,"bounded number of codebook reads"); r_kind[g_r]=kind; r_book[g_r]=book; r_ch[g_r]=ch; r_off[g_r]=off; r_n[g_r]=n; r_ret[g_r]=ret; g_r++; }
 long vorbis_book_decode(codebook *book,oggpack_buffer *b){ long v=ND_range(-1,5); rec(0,(int)(book-fb),-1,0,0,(int)v); return v; }
 static long part(codebook *book,float *a,int n,int kind){ int ch= (a>=v0&&a<=v0+HALF)?0:(a>=v1&&a<=v1+HALF)?1:-1; CHECK(ch>=0,"partition decoded into one of the channel vectors");
@@ -39,7 +48,7 @@ long vorbis_book_decodevs_add(codebook *book,float *a,oggpack_buffer *b,int n){ 
 long vorbis_book_decodev_add(codebook *book,float *a,oggpack_buffer *b,int n){ return part(book,a,n,2); }
 long vorbis_book_decodevv_add(codebook *book,float **a,long offset,int ch,oggpack_buffer *b,int n){ CHECK(a==g_in && ch==CHN,"residue 2 decodes into the channel set"); CHECK(offset>=0 && n>=0 && offset+n<=CHN*HALF,"interleaved range inside the channel vectors");
   int ret=ND_BOOL()?0:-1; rec(3,(int)(book-fb),-1,(int)offset,n,ret); return ret; }
-void *_vorbis_block_alloc(vorbis_block *vb,long bytes){ CHECK(bytes>=0 && bytes<=64,"classification table request bounded"); return malloc(bytes>0?bytes:1); }   /* block-local: released with the block (not tracked here) */
+void *_vorbis_block_alloc(vorbis_block *vb,long bytes){ CHECK(bytes>=0 && bytes<=64,"classification table request bounded"); return malloc(64); }   /* constant size: a symbolic allocation size exhausts memory in propositional reduction */   /* block-local: released with the block (not tracked here) */
 #include "res0.c"
 int ov_ilog(ogg_uint32_t v){ int ret; for(ret=0;v;ret++)v>>=1; return ret; }
 void harness(void){
@@ -47,25 +56,25 @@ void harness(void){
   vi.codec_setup=&ci; vd.vi=&vi; vb.vd=&vd; ci.books=NBK; ci.fullbooks=fb; vb.pcmend=2*HALF; vi.channels=CHN;
   fb[0].dim=2; fb[0].entries=4;                      /* classbook: 2 classification words per codeword */
   for(int i=1;i<NBK;i++){ fb[i].dim=1; fb[i].entries=2; }
-  static vorbis_info_residue0 info; info.begin=ND_irange(0,24); info.end=ND_irange(0,24); info.grouping=2; info.partitions=2; info.partvals=4; info.groupbook=0;
-  info.secondstages[0]=ND_irange(0,7); info.secondstages[1]=ND_irange(0,7);
-  for(int i=0;i<6;i++) info.booklist[i]=ND_irange(1,NBK-1);
+  static vorbis_info_residue0 info; info.begin=ND_irange(0,10); info.end=ND_irange(0,10); info.grouping=2; info.partitions=2; info.partvals=4; info.groupbook=0;
+  info.secondstages[0]=CAS0; info.secondstages[1]=CAS1;   /* configuration: res0_look allocates ilog(cascade) pointers per class (symbolic allocation size otherwise) */
+  for(int i=0;i<4;i++) info.booklist[i]=ND_irange(1,NBK-1);
   vorbis_look_residue0 *look=(vorbis_look_residue0 *)res0_look(&vd,(vorbis_info_residue *)&info);
   /* reference stage-book table (spec 8.6.1: books listed cascade bit by cascade bit, class by class) */
-  int sb[2][3], acc=0, passes=0; for(int c=0;c<2;c++) for(int s=0;s<3;s++){ if(info.secondstages[c]&(1<<s)){ sb[c][s]=info.booklist[acc++]; if(s+1>passes)passes=s+1; } else sb[c][s]=-1; }
+  int sb[2][2], acc=0, passes=0; for(int c=0;c<2;c++) for(int s=0;s<2;s++){ if(info.secondstages[c]&(1<<s)){ sb[c][s]=info.booklist[acc++]; if(s+1>passes)passes=s+1; } else sb[c][s]=-1; }
   CHECK(look->stages==passes && look->parts==2 && look->partvals==4,"look: passes = highest cascade bit in use; classification map for 2^2 words");
   for(int w=0;w<4;w++) CHECK(look->decodemap[w][0]==w/2 && look->decodemap[w][1]==w%2,"look: classification word digits, most significant first (spec 8.6.2 step: temp % classifications filled from the end)");
-  int nz[CHN]; nz[0]=ND_irange(0,1); nz[1]=ND_irange(0,1); g_in[0]=v0; g_in[1]=v1;
+  int nz[2]; nz[0]=ND_irange(0,1); nz[1]=ND_irange(0,1); g_in[0]=v0; g_in[1]=v1;
 
   int ret= TYPE==0? res0_inverse(&vb,(vorbis_look_residue *)look,g_in,nz,CHN) : TYPE==1? res1_inverse(&vb,(vorbis_look_residue *)look,g_in,nz,CHN) : res2_inverse(&vb,(vorbis_look_residue *)look,g_in,nz,CHN);
   CHECK(ret==0,"residue decode never fails: a short packet just ends it");
   /* ---- reference walk (spec 8.6.2) ---- */
   int vec= TYPE==2? CHN*HALF : HALF;                      /* decoded vector length */
   int end= info.end<vec?info.end:vec, n=end-info.begin, r=0, stop=0;
-  int dec[CHN], nd=0; for(int j=0;j<CHN;j++) if(nz[j]) dec[nd++]=j;       /* channels actually decoded, in order (types 0/1 compact them to the front) */
-  int streams= TYPE==2? ((nz[0]||nz[1])?1:0) : nd;
+  int dec[2], nd=0; for(int j=0;j<CHN;j++) if(nz[j]) dec[nd++]=j;       /* channels actually decoded, in order (types 0/1 compact them to the front) */
+  int streams= TYPE==2? ((nz[0]||nz[1])?1:0) : nd;   /* types 0/1 run with one channel here (CHN=1): the per-channel interleaving of classification words is outside this job */
   if(n>0 && streams>0){
-    int pv=n/2, cls[CHN][8];
+    int pv=n/2, cls[2][8];
     for(int s=0;s<passes && !stop;s++){
       for(int i=0,l=0;i<pv && !stop;l++){
         if(s==0) for(int j=0;j<streams && !stop;j++){ CHECK(r<g_r && r_kind[r]==0 && r_book[r]==0,"pass 0: one classification word per decoded channel, from the class book"); int t=r_ret[r++]; if(t==-1||t>=4){ stop=1; break; } cls[j][2*l]=t/2; cls[j][2*l+1]=t%2; }
